@@ -438,6 +438,39 @@ func Note(site string, v int) {
 	g.Log = append(g.Log, Event{T: time.Now().UnixNano(), G: g.Name, Site: site, Len: v, Cap: -2})
 }
 
+type tryLocker interface {
+	TryLock() bool
+	Lock()
+}
+
+type tryRLocker interface {
+	TryRLock() bool
+	RLock()
+}
+
+// Lock acquires a sync.Mutex / sync.RWMutex (rewrite T5). Under simulation a goroutine that cannot get the
+// lock sleeps on the simulated clock and tries again, so the holder - which may be asleep at a delay point - can run.
+func Lock(site string, l tryLocker) {
+	if get() == nil || self() == nil {
+		l.Lock()
+		return
+	}
+	for !l.TryLock() {
+		yield(site+":contended", -1, 0)
+	}
+}
+
+// RLock is Lock for the read side of a sync.RWMutex.
+func RLock(site string, l tryRLocker) {
+	if get() == nil || self() == nil {
+		l.RLock()
+		return
+	}
+	for !l.TryRLock() {
+		yield(site+":contended", -1, 0)
+	}
+}
+
 // Case is one case of a simulated select.
 type Case struct{ c reflect.SelectCase }
 
